@@ -17,7 +17,7 @@ from vlib import hx, hxl
 
 ID = 'C09'
 COMPONENTS = ['analyze']
-THEOREMS = ['C09_analyze_exact', 'C09_analyze_no_panic',
+THEOREMS = ['C09_analyze_exact', 'C09_analyze_no_panic', 'C09_analyze_error_kind',
             'C09_field_name_sees_outer_scope', 'C09_comp_vars_left_to_right',
             'C09_object_locals_mutual', 'C09_analyze_closed', 'C09_walk_no_unbound',
             'C09_analyze_walk_no_unbound', 'C09_nonvacuous_ok', 'C09_nonvacuous_err',
